@@ -147,3 +147,19 @@ void h_Symmetrizer_compute(void)
   Symmetrizer_compute_b(s, ignore);
   REACH("exit");
 }
+
+/* ---------------------------------------------------------------------------------------------------------------------
+ * KNOWN FINDING D9 is not decided here: the post-condition of checkSymmetry (commutes with H and with every n_i) is all an
+ * accepted integral guarantees; it does not imply the pre-condition SingleTarget of FieldOperator::mapsTo (specs/states.c).
+ * The obligation that cannot be discharged for accepted non-linear diagonal integrals is the `requires` of
+ * FieldOperator_mapsTo (SingleTarget clause) at its call sites in Creation/Annihilation/QuadraticOperator::prepare.
+ *
+ * MUTATION LOG (all killed):
+ *  pre-fix f9d8073^ (Sz built unconditionally)               Symmetrizer_compute_b.postcondition.1 (an exception escapes)
+ *  compute: `2*size == IndexSize` -> `<=`                     Symmetrizer_compute_b.postcondition.1
+ *  compute: `!ignore_symmetries` -> `ignore_symmetries`       Symmetrizer_compute_b.postcondition.2
+ *  checkSymmetry: drop the Storage.commutes test              Symmetrizer_checkSymmetry.postcondition.1
+ *  checkSymmetry: loop from i = 1                             Symmetrizer_checkSymmetry.postcondition.1, loop_invariant_base.2
+ *  checkSymmetry: `return false` in the loop -> `break`       Symmetrizer_checkSymmetry.postcondition.1
+ *  checkSymmetry: drop Operations.push_back                   Symmetrizer_checkSymmetry.postcondition.3/.5
+ * ------------------------------------------------------------------------------------------------------------------- */
